@@ -5,6 +5,7 @@ import warnings
 from .. import core
 
 ID = "C15"
+PRISTINE_IMPORTS = ["debian.changelog"]
 LEVEL = "model_checking"
 RULE = ("(a) all sequences of <= n lines over 21 line shapes (one per branch of the parser's state machine and one per "
         "_parse_error call site), allow_empty_author on/off; (b) every text obtained from well-formed changelogs by one "
@@ -18,7 +19,8 @@ BUDGET = {"quick": 240, "thorough": 3000}
 def bounds(tier):
     return {"line_shapes": len(shapes(0)), "sequence_length": 4 if tier == "quick" else 5,
             "mutations_of_wellformed": "single edits on 3 changelogs + pairs on %s" % ("1" if tier == "quick" else "3"),
-            "edit_history_depth": 2 if tier == "quick" else 3, "edit_ops": len(OPS)}
+            "edit_history_depth": 2 if tier == "quick" else 3, "edit_ops": len(OPS),
+            "pristine_state_pass": "all sequences of length <= %d and all single-line mutations, each evaluated in a process forked from a zygote that only imported the library" % (3 if tier == "quick" else 4)}
 
 
 def assumptions():
@@ -171,6 +173,8 @@ def single_edits(lines, seed):
     for pos in range(len(lines)):
         out.append(("del", pos))
         out.append(("dup", pos))
+        for k in range(len(sh)):
+            out.append(("sub", pos, k))
     return out
 
 
@@ -184,6 +188,9 @@ def apply_edit(lines, e, seed):
     elif e[0] == "dup":
         if e[1] < len(lines):
             lines.insert(e[1], lines[e[1]])
+    elif e[0] == "sub":
+        if e[1] < len(lines):
+            lines[e[1]] = shapes(seed)[e[2]]
     return lines
 
 
@@ -197,7 +204,11 @@ OPS = [("new_block", NB),
        ("new_block", {}),
        ("add_change", "  * added"), ("add_change", ""), ("add_change", "    cont"),
        ("set", "version", "3:4-5"), ("set", "package", "zz"), ("set", "distributions", "a b"),
-       ("set", "urgency", "critical"), ("set", "author", "Q <q@q>"), ("set", "date", "Thu, 04 Jan 2024 01:02:03 -0500")]
+       ("set", "urgency", "critical"), ("set", "author", "Q <q@q>"), ("set", "date", "Thu, 04 Jan 2024 01:02:03 -0500"),
+       # the same assignments made on a block object (top block and oldest block) instead of the Changelog
+       ("bset", 0, "author", "R <r@r>"), ("bset", 0, "date", "Fri, 05 Jan 2024 01:02:03 +0000"),
+       ("bset", -1, "author", "S <s@s>"), ("bset", -1, "date", "Sat, 06 Jan 2024 01:02:03 +0000"),
+       ("bset", -1, "distributions", "stable"), ("badd", -1, "  * added to the oldest block")]
 
 
 def bases(seed):
@@ -226,6 +237,10 @@ def run_history(base, hist):
                 c.new_block(**dict(op[1]))
             elif op[0] == "add_change":
                 c.add_change(op[1])
+            elif op[0] == "bset":
+                setattr(c[op[1]], op[2], op[3])
+            elif op[0] == "badd":
+                c[op[1]].add_change(op[2])
             else:
                 setattr(c, op[1], op[2])
         except IndexError:
@@ -249,11 +264,17 @@ def units(tier, seed):
     for bi in range(len(bases(seed))):
         for oi in range(len(OPS)):
             out.append({"kind": "edit", "base": bi, "first": oi})
+    # every short text once more with the library in the state it has right after import (mc/zygote.py): a text's
+    # verdict must not depend on what the process parsed before
+    out.append({"kind": "pristine-seq", "first": None})
+    out += [{"kind": "pristine-seq", "first": i} for i in range(n)]
+    out += [{"kind": "pristine-mut", "w": wi} for wi in range(3)]
     return out
 
 
 def unit_cost(u, tier):
-    return {"seq": 10 if u.get("prefix") else 1, "mut1": 3, "mut2": 8, "edit": 4}[u["kind"]]
+    return {"seq": 10 if u.get("prefix") else 1, "mut1": 3, "mut2": 8, "edit": 4, "pristine-seq": 12,
+            "pristine-mut": 6}[u["kind"]]
 
 
 def run_unit(u, tier, seed):
@@ -326,6 +347,34 @@ def run_unit(u, tier, seed):
                     if aea:
                         part.nontrivial += 1
         part.sample({"kind": "mut", "w": u["w"], "edits": edit_lists[len(edit_lists) // 2], "aea": True})
+    elif u["kind"].startswith("pristine"):
+        from ..pristine import Pristine
+        if u["kind"] == "pristine-seq":
+            n = 3 if tier == "quick" else 4
+            if u["first"] is None:
+                seqs = [()]
+            else:
+                seqs = [(u["first"],) + rest for L in range(0, n) for rest in itertools.product(range(len(sh)), repeat=L)]
+            cases = [{"kind": "seq", "seq": q, "aea": aea, "seed": seed} for q in seqs for aea in (False, True)]
+        else:
+            base = wellformed(seed)[u["w"]]
+            cases = [{"kind": "mut", "w": u["w"], "edits": [e], "aea": aea, "seed": seed}
+                     for e in single_edits(base, seed) for aea in (False, True)]
+        P = Pristine(ID)
+        try:
+            for case in cases:
+                bad = P.replay(case)
+                part.states += 1
+                part.transitions += 1
+                part.traces += 1
+                part.evaluations += 1
+                part.nontrivial += 1
+                for sig, exp, obs in bad:
+                    part.violation(sig, case, exp, obs, rank=len(case.get("seq", ())) + 100 * len(case.get("edits", ())))
+                part.outcomes["pristine/" + ("violation" if bad else "ok")] += 1
+        finally:
+            P.close()
+        part.sample(cases[len(cases) // 2])
     else:
         depth = 2 if tier == "quick" else 3
         base = bases(seed)[u["base"]]
